@@ -364,6 +364,31 @@ theorem returns_first_acceptable (cfg : Cfg) (lid : Nat) (msgs : List Msg) (fs :
         obtain ⟨_, _, _, _, _, _, _, rfl, rfl⟩ := (classify_accept_iff cfg lid m a t).1 hc
         rw [(acceptable_iff cfg lid m).2 hc] at ha; cases ha
 
+/-- C24 (long-lived executor): the result of a window does not depend on the windows the
+    executor followed before. -/
+theorem followerSeq_history_independent (pre post : List (Cfg × List Msg)) (c : Cfg × List Msg) :
+    (followerSeq (pre ++ c :: post))[pre.length]? = some (follower c.1 c.2) := by
+  simp [followerSeq]
+
+/-- C24 (cancellation racing with buffered messages = a shorter history): whatever prefix of the
+    history the loop processed before it noticed the end of the active phase, an accepted
+    proposal is the first acceptable message of the *whole* history. -/
+theorem prefix_accepts_first_acceptable (cfg : Cfg) (lid : Nat) (msgs : List Msg) (j : Nat)
+    (p : Nat × Nat) (fs : List Fault) (h : run cfg lid (msgs.take j) [] = (some p, fs)) :
+    (msgs.find? (acceptable cfg lid)).map (fun m => (m.act, m.tag)) = some p := by
+  obtain ⟨pre, m, post, e, hpre, hm, _⟩ := run_some cfg lid (msgs.take j) [] fs p h
+  have hsplit : msgs = pre ++ m :: (post ++ msgs.drop j) := by
+    have := List.take_append_drop j msgs
+    rw [e] at this
+    simpa using this.symm
+  obtain ⟨_, _, _, _, _, _, _, ha, ht⟩ := (classify_accept_iff cfg lid m p.1 p.2).1 hm
+  have hacc : acceptable cfg lid m = true := by
+    rw [acceptable_iff, ← ha, ← ht]; exact hm
+  rw [hsplit, List.find?_append]
+  have hnone : List.find? (acceptable cfg lid) pre = none := by
+    rw [List.find?_eq_none]; intro x hx; simp [hpre x hx]
+  simp [hnone, hacc, ← ha, ← ht]
+
 /-! ## monitor tie -/
 
 theorem holds_model (cfg : Cfg) (msgs : List Msg) (p : Option (Nat × Nat)) (fs : List Fault)
